@@ -33,9 +33,18 @@ impl KeyIdStorage for StrongholdStorage {
     let key_id: String = key_id.into();
     client
       .store()
-      .insert(method_digest_pack, key_id.into(), None)
+      .insert(method_digest_pack.clone(), key_id.into(), None)
       .map_err(|err| KeyIdStorageError::new(KeyIdStorageErrorKind::Unspecified).with_source(err))?;
-    persist_changes(self, stronghold).await?;
+    if let Err(error) = persist_changes(self, stronghold).await {
+      // The entry did not reach the snapshot file. A failed insertion must not leave it behind in memory either,
+      // from where the next successful write would persist it.
+      let stronghold = self.get_stronghold().await;
+      if let Ok(client) = get_client(&stronghold) {
+        let _ = client.store().delete(method_digest_pack.as_ref());
+        let _ = stronghold.write_client(IDENTITY_CLIENT_PATH);
+      }
+      return Err(error);
+    }
     Ok(())
   }
 
@@ -60,12 +69,20 @@ impl KeyIdStorage for StrongholdStorage {
     let store = get_client(&stronghold)?.store();
     let key: Vec<u8> = method_digest.pack();
 
-    let _ = store
+    let deleted: Vec<u8> = store
       .delete(key.as_ref())
       .map_err(|err| KeyIdStorageError::new(KeyIdStorageErrorKind::Unspecified).with_source(err))?
       .ok_or(KeyIdStorageError::new(KeyIdStorageErrorKind::KeyIdNotFound))?;
 
-    persist_changes(self, stronghold).await?;
+    if let Err(error) = persist_changes(self, stronghold).await {
+      // The deletion did not reach the snapshot file. A failed deletion must not take effect in memory either.
+      let stronghold = self.get_stronghold().await;
+      if let Ok(client) = get_client(&stronghold) {
+        let _ = client.store().insert(key, deleted, None);
+        let _ = stronghold.write_client(IDENTITY_CLIENT_PATH);
+      }
+      return Err(error);
+    }
     Ok(())
   }
 }
